@@ -116,6 +116,103 @@ Qed.
 Corollary not_found_means_no_match disk lits : files_wf (disk_files disk) -> search lits (tree_of_disk disk) = NotFound ->
   forall n nm bytes, nth_error disk n = Some (nm, bytes) -> map (fun c => name_lit (norm_name c)) (comps nm) <> map Some lits.
 Proof. intros WF S n nm bytes Hn M. apply not_found_iff in S. pose proof (matching_file_is_a_path disk lits n nm bytes WF Hn M) as H. rewrite S in H. exact H. Qed.
+(* ---------- and a single matching file is FOUND: no file is reached along two routes ---------- *)
+Lemma nodup_app {A} (l1 l2:list A) : NoDup l1 -> NoDup l2 -> (forall x, In x l1 -> ~ In x l2) -> NoDup (l1 ++ l2).
+Proof.
+  induction l1 as [|a l1 IH]; intros N1 N2 D; [exact N2|]. cbn [app]. inversion N1 as [|? ? Ha N1']; subst. constructor.
+  - intros H. apply in_app_or in H. destruct H as [H|H]; [contradiction|]. apply (D a); [left; reflexivity|exact H].
+  - apply IH; auto. intros x Hx. apply D. right; exact Hx.
+Qed.
+Lemma nodup_flat_map {A B} (f:A -> list B) l : (forall x, In x l -> NoDup (f x)) ->
+  (forall x y b, In x l -> In y l -> In b (f x) -> In b (f y) -> x = y) -> NoDup l -> NoDup (flat_map f l).
+Proof.
+  induction l as [|a l IH]; intros Nf D Nl; [constructor|]. cbn [flat_map]. inversion Nl as [|? ? Ha Nl']; subst. apply nodup_app.
+  - apply Nf. left; reflexivity.
+  - apply IH; auto. intros x Hx. apply Nf. right; exact Hx. intros x y b Hx Hy. apply D; right; assumption.
+  - intros b Hb Hb'. apply in_flat_map in Hb'. destruct Hb' as (y & Hy & Hby). assert (a = y) by (apply (D a y b); auto; [left; reflexivity|right; exact Hy]). subst. contradiction.
+Qed.
+Lemma nodup_dedup l : NoDup (dedup l).
+Proof.
+  induction l as [|a l IH]; cbn [dedup]; constructor.
+  - intros H. apply filter_In in H. destruct H as [_ H]. rewrite name_eqb_refl in H. discriminate.
+  - apply NoDup_filter. exact IH.
+Qed.
+Lemma same_id_same_file {A} (l:list (A * N)) : NoDup (map snd l) -> forall a b i, In (a, i) l -> In (b, i) l -> a = b.
+Proof.
+  induction l as [|[c j] l IH]; intros Nl a b i Ha Hb; [contradiction|]. cbn [map snd] in Nl. inversion Nl as [|? ? Hj Nl']; subst.
+  destruct Ha as [Ha|Ha]; destruct Hb as [Hb|Hb].
+  - congruence.
+  - inversion Ha; subst. exfalso. apply Hj. apply in_map_iff. exists (b, i). split; auto.
+  - inversion Hb; subst. exfalso. apply Hj. apply in_map_iff. exists (a, i). split; auto.
+  - eapply IH; eauto.
+Qed.
+Lemma under_ids files nm i : In i (map snd (under nm files)) -> In i (map snd files).
+Proof. intros H. apply in_map_iff in H. destruct H as ([r j] & E & H). cbn [snd] in E. subst j. apply in_under in H. apply in_map_iff. exists (nm :: r, i). split; auto. Qed.
+Lemma nodup_under nm : forall files, NoDup (map snd files) -> NoDup (map snd (under nm files)).
+Proof.
+  induction files as [|[cs j] files IH]; intros Nl; [constructor|]. cbn [map snd] in Nl. inversion Nl as [|? ? Hj Nl']; subst.
+  unfold under. cbn [flat_map fst snd]. fold (under nm files). destruct cs as [|c r]; [apply IH; exact Nl'|].
+  destruct (name_eqb c nm); [|apply IH; exact Nl']. cbn [app map snd]. constructor; [|apply IH; exact Nl']. intros H. apply Hj. eapply under_ids; exact H.
+Qed.
+Lemma path_ids fuel files lits p i : In (p, i) (all_paths lits (build fuel files)) -> In i (map snd files).
+Proof. intros H. destruct (paths_sound _ _ _ _ H) as [R _]. apply resolves_build in R. destruct R as (cs & Hcs & _). apply in_map_iff. exists (cs, i). split; auto. Qed.
+Lemma map_snd_flat_map {A B C} (f:A -> list (B * C)) l : map snd (flat_map f l) = flat_map (fun x => map snd (f x)) l.
+Proof. induction l as [|a l IH]; [reflexivity|]. cbn [flat_map]. rewrite map_app, IH. reflexivity. Qed.
+Lemma flat_map_map {A B C} (h:A -> B) (f:B -> list C) l : flat_map f (map h l) = flat_map (fun x => f (h x)) l.
+Proof. induction l as [|a l IH]; [reflexivity|]. cbn [map flat_map]. rewrite IH. reflexivity. Qed.
+Definition entry_ids (f:nat) (files:list (list (list N) * N)) (l:Z) (sub:list Z) (c:list N) : list N :=
+  map snd (if lit_eqb (name_lit (norm_name c)) l then map (fun pi : list (list N) * N => (norm_name c :: fst pi, snd pi))
+    (all_paths sub match find (fun x : list (list N) * N => match fst x with [] => true | _ :: _ => false end) (under c files) with Some x => TFile (snd x) | None => build f (under c files) end) else []).
+Lemma entry_ids_in f files l sub c b : In b (entry_ids f files l sub c) -> exists r, In (c :: r, b) files.
+Proof.
+  unfold entry_ids. intros H. destruct (lit_eqb (name_lit (norm_name c)) l); [|contradiction]. rewrite map_map in H. cbn [snd] in H.
+  destruct (find (fun x : list (list N) * N => match fst x with [] => true | _ :: _ => false end) (under c files)) as [x|] eqn:F.
+  - apply find_some in F. destruct F as [Ix _]. destruct x as [rx ix]. cbn [snd] in H. destruct sub; cbn [all_paths map] in H; [|contradiction].
+    destruct H as [H|[]]. cbn [snd] in H. subst ix. exists rx. apply in_under. exact Ix.
+  - apply in_map_iff in H. destruct H as ([q j] & E & H). cbn [snd] in E. subst j. apply path_ids in H. apply in_map_iff in H.
+    destruct H as ([r j] & E & H). cbn [snd] in E. subst j. exists r. apply in_under. exact H.
+Qed.
+Lemma build_ids_nodup : forall fuel files lits, NoDup (map snd files) -> NoDup (map snd (all_paths lits (build fuel files))).
+Proof.
+  induction fuel as [|f IH]; intros files lits Nl.
+  - cbn [build]. destruct lits; cbn [all_paths flat_map map]; constructor.
+  - destruct lits as [|l sub]; [cbn [build all_paths map]; constructor|]. cbn [build all_paths].
+    rewrite map_snd_flat_map, flat_map_map. cbn [fst snd].
+    change (NoDup (flat_map (entry_ids f files l sub) (dedup (flat_map (fun x : list (list N) * N => match fst x with c :: _ => [c] | [] => [] end) files)))).
+    apply nodup_flat_map; [| |apply nodup_dedup].
+    + intros c _. unfold entry_ids. destruct (lit_eqb (name_lit (norm_name c)) l); [|constructor]. rewrite map_map. cbn [snd].
+      destruct (find (fun x : list (list N) * N => match fst x with [] => true | _ :: _ => false end) (under c files)) as [x|].
+      * destruct sub; cbn [all_paths map]; repeat constructor. intros [].
+      * apply IH. apply nodup_under. exact Nl.
+    + intros c c' b _ _ Hb Hb'. destruct (entry_ids_in _ _ _ _ _ _ Hb) as (r & Hr). destruct (entry_ids_in _ _ _ _ _ _ Hb') as (r' & Hr').
+      pose proof (same_id_same_file files Nl _ _ _ Hr Hr') as E. congruence.
+Qed.
+Lemma number_ids {A} (l:list A) : forall k, NoDup (map snd (number l k)) /\ (forall i, In i (map snd (number l k)) -> (k <= i)%N).
+Proof.
+  induction l as [|a l IH]; intros k; cbn [number map snd]; [split; [constructor|intros i []]|]. destruct (IH (k + 1)%N) as [Nl Ge]. split.
+  - constructor; [|exact Nl]. intros H. apply Ge in H. lia.
+  - intros i [H|H]; [lia|]. apply Ge in H. lia.
+Qed.
+Lemma one_of_a_kind {A} (l:list (A * N)) a n : NoDup (map snd l) -> In (a, n) l -> (forall b j, In (b, j) l -> j = n) -> l = [(a, n)].
+Proof.
+  intros Nl Hin All. destruct l as [|[b j] l]; [contradiction|]. assert (j = n) by (apply (All b j); left; reflexivity). subst j.
+  destruct l as [|[c k] l].
+  - destruct Hin as [Hin|[]]. rewrite Hin. reflexivity.
+  - exfalso. assert (k = n) by (apply (All c k); right; left; reflexivity). subst k. cbn [map snd] in Nl. inversion Nl as [|? ? Hn _]. apply Hn. left; reflexivity.
+Qed.
+(* on a well-formed disk, when exactly one file carries the literals, the search FINDS it (it is neither missing nor ambiguous) *)
+Theorem single_match_is_found disk lits n nm bytes : files_wf (disk_files disk) -> nth_error disk n = Some (nm, bytes) ->
+  map (fun c => name_lit (norm_name c)) (comps nm) = map Some lits ->
+  (forall n' nm' bytes', nth_error disk n' = Some (nm', bytes') -> map (fun c => name_lit (norm_name c)) (comps nm') = map Some lits -> n' = n) ->
+  search lits (tree_of_disk disk) = Found (map norm_name (comps nm)) (N.of_nat n).
+Proof.
+  intros WF Hn M Only. rewrite search_is_classify.
+  rewrite (one_of_a_kind (all_paths lits (tree_of_disk disk)) (map norm_name (comps nm)) (N.of_nat n)); [reflexivity| |apply matching_file_is_a_path with bytes; assumption|].
+  - unfold tree_of_disk. apply build_ids_nodup. rewrite map_map. cbn [snd]. apply (number_ids disk 0%N).
+  - intros q j Hq. destruct (paths_sound _ _ _ _ Hq) as [R Mq]. unfold tree_of_disk in R. apply resolves_build in R. destruct R as (cs & Hcs & Ep).
+    apply in_map_iff in Hcs. destruct Hcs as ([[nm' bytes'] i] & Heq & Hnum). cbn [fst snd] in Heq. inversion Heq; subst. clear Heq.
+    apply in_number in Hnum. destruct Hnum as [_ E]. rewrite N.sub_0_r in E. rewrite map_map in Mq. rewrite <- (Only _ _ _ E Mq). lia.
+Qed.
 (* the premises hold somewhere: the one-file disk "ㄴ/ㄷ.t" is well formed and its file matches the literals 1, 2 *)
 Example wf_holds_somewhere : let disk := [([12596; 47; 12599; 46; 116]%N, [227; 132; 183]%N)] in
   files_wf (disk_files disk) /\ map (fun c => name_lit (norm_name c)) (comps [12596; 47; 12599; 46; 116]%N) = map Some [1; 2]%Z.
@@ -124,4 +221,4 @@ Proof.
   - intros cs i j [Hi|[]] [Hj|[]]. congruence.
   - intros cs ds i j [Hi|[]] [Hj|[]]. inversion Hi as [[Ec Ei]]. inversion Hj as [[E Ej]]. rewrite <- Ec in E. apply (f_equal (@length _)) in E. rewrite app_length in E. destruct ds; [reflexivity|cbn [length] in E; lia].
 Qed.
-Print Assumptions found_file_carries_the_literals. Print Assumptions matching_file_is_a_path. Print Assumptions not_found_means_no_match.
+Print Assumptions found_file_carries_the_literals. Print Assumptions matching_file_is_a_path. Print Assumptions not_found_means_no_match. Print Assumptions single_match_is_found.
